@@ -4,7 +4,7 @@ CONSTANTS
   NBlocks = 2
   BlockBits = 1
   Handles = {"hA"}
-  Nums = {1, 2}
+  Nums = {2}
   Strict = FALSE
   Cool = 0
   MaxB = 0
